@@ -6,6 +6,14 @@ use crate::shims::net2::{TcpListener, TcpStream, SocketAddr};
 use crate::server::handler::AuthorizationHandler;
 
 //@item rodbus/src/tcp/server.rs | SessionClose
+// the session-close and server-command queues carry no invariant: `queue_inv` is `true` at these types (definition)
+pub mod queue_axioms {
+    use vstd::prelude::*;
+    use crate::shims::tokio;
+    pub broadcast axiom fn axiom_queue_inv_session_close(v: super::SessionClose) ensures #[trigger] tokio::sync::mpsc::queue_inv(v);
+    pub broadcast axiom fn axiom_queue_inv_server_command(v: crate::server::task::ServerCommand) ensures #[trigger] tokio::sync::mpsc::queue_inv(v);
+}
+broadcast use {queue_axioms::axiom_queue_inv_session_close, queue_axioms::axiom_queue_inv_server_command};
 // how a connection is upgraded: plain TCP, or TLS with the server configuration and an optional authorization handler
 //@item rodbus/src/tcp/server.rs | TcpServerConnectionHandler | derive=
 impl Clone for TcpServerConnectionHandler {
